@@ -12,6 +12,7 @@ def fault_ops(alpha, tier):
         ("bad_insert", "int", "db"),
         ("bad_insert_multiple", ("P1", "P4"), 1, "str", "db"),
         ("bad_insert_multiple", ("P0", "P1"), 2, "None", "db"),
+        ("bad_insert_multiple", ("P0", "P1"), 1, "genraise", "db"),
         ("update_raise", None, "tags", 1, None, None, "db"),
         ("update_raise", None, "fields", 2, "time", None, "db"),
         ("update_raise", sel, "tags", 1, "time", None, "db"),
@@ -66,7 +67,9 @@ class C06(E1Check):
         return 600 if self.tier == "quick" else 3 * 3600
 
     def op_list(self, cfg):
-        return std_ops(self.alpha, cfg, self.tier) + fault_ops(self.alpha, self.tier)
+        # PF is dated after the virtual clock: a point without a time (P6, stamped "now") is then out of order
+        extra = [("insert", "PF", None, False, "db"), ("insert", "P6", None, False, "db")]
+        return std_ops(self.alpha, cfg, self.tier) + extra + fault_ops(self.alpha, self.tier)
 
     def enabled(self, op, contents, cfg, history):
         if not super().enabled(op, contents, cfg, history):
